@@ -14,12 +14,23 @@
 #include <librdsparser.h>
 #include <librdsparser_private.h>
 
+#ifndef THREADLOCAL
+#define THREADLOCAL
+#endif
 #define NINST 8
 #define CANARY 64
 #define MAXEV 32
 
+#if defined(HARNESS_THREADS) || defined(SEGCHECK)
+/* no allocator faults in the threaded / shared-object builds */
+static THREADLOCAL int verif_malloc_fail_next;
+static THREADLOCAL long verif_malloc_fail_count;
+#define NO_MALLOC_FAULT 1
+#else
 extern int verif_malloc_fail_next;   /* wrapmalloc.c */
 extern long verif_malloc_fail_count;
+#endif
+static THREADLOCAL FILE *OUT;
 
 typedef struct { unsigned long cp[64]; unsigned char lvl[64]; unsigned long term; int cap, len, av; } textsnap_t;
 typedef struct {
@@ -42,12 +53,12 @@ typedef struct {
     snap_t prev;
 } inst_t;
 
-static inst_t inst[NINST];
-static int cur = 0;
-static event_t evs[MAXEV];
-static int nev = 0;
-static long ev_overflow = 0;
-static rdsparser_t *cur_handle = NULL;
+static THREADLOCAL inst_t inst[NINST];
+static THREADLOCAL int cur = 0;
+static THREADLOCAL event_t evs[MAXEV];
+static THREADLOCAL int nev = 0;
+static THREADLOCAL long ev_overflow = 0;
+static THREADLOCAL rdsparser_t *cur_handle = NULL;
 
 static const int caps[4] = { RDSPARSER_PS_LENGTH, RDSPARSER_RT_LENGTH, RDSPARSER_RT_LENGTH, RDSPARSER_PTYN_LENGTH };
 
@@ -155,7 +166,7 @@ static void do_register(rdsparser_t *r, int k, int on)
 
 static void print_cells(const textsnap_t *t)
 {
-    for (int i = 0; i < t->cap; i++) printf("%s%lx/%x", i ? "," : "", t->cp[i], (unsigned)t->lvl[i]);
+    for (int i = 0; i < t->cap; i++) fprintf(OUT, "%s%lx/%x", i ? "," : "", t->cp[i], (unsigned)t->lvl[i]);
 }
 
 static int text_eq(const textsnap_t *a, const textsnap_t *b)
@@ -179,7 +190,7 @@ static void check_canaries(inst_t *in)
     size_t sz = sizeof(rdsparser_t);
     for (size_t i = 0; i < CANARY; i++) {
         if (in->storage[i] != 0xA5 || in->storage[CANARY + sz + i] != 0xA5) {
-            printf("X canary overwritten\n");
+            fprintf(OUT, "X canary overwritten\n");
             return;
         }
     }
@@ -206,16 +217,16 @@ static void caller_alloc(inst_t *in)
 
 static void emit_state(inst_t *in, long k, int ret)
 {
-    printf("O %ld %d %d\n", k, cur, ret);
-    if (ev_overflow) { printf("X event overflow %ld\n", ev_overflow); ev_overflow = 0; }
+    fprintf(OUT, "O %ld %d %d\n", k, cur, ret);
+    if (ev_overflow) { fprintf(OUT, "X event overflow %ld\n", ev_overflow); ev_overflow = 0; }
     qsort(evs, nev, sizeof evs[0], ev_cmp);
     for (int i = 0; i < nev; i++) {
         event_t *e = &evs[i];
-        printf("E %d %ld ud=%lu h=%d own=", e->kind, e->arg, e->ud, e->h);
-        if (e->kind <= 7) printf("%ld", e->own);
+        fprintf(OUT, "E %d %ld ud=%lu h=%d own=", e->kind, e->arg, e->ud, e->h);
+        if (e->kind <= 7) fprintf(OUT, "%ld", e->own);
         else if (e->kind <= 10) print_cells(&e->owntext);
-        else printf("%ld %ld %ld %ld %ld %ld", e->ct[0], e->ct[1], e->ct[2], e->ct[3], e->ct[4], e->ct[5]);
-        printf("\n");
+        else fprintf(OUT, "%ld %ld %ld %ld %ld %ld", e->ct[0], e->ct[1], e->ct[2], e->ct[3], e->ct[4], e->ct[5]);
+        fprintf(OUT, "\n");
     }
     nev = 0;
     if (!in->rds) return;
@@ -224,23 +235,23 @@ static void emit_state(inst_t *in, long k, int ret)
     snap_all(in->rds, &now);
     snap_t *p = &in->prev;
     if (!p->valid[0] || memcmp(now.sc, p->sc, sizeof now.sc))
-        printf("S %ld %ld %ld %ld %ld %ld %ld\n", now.sc[0], now.sc[1], now.sc[2], now.sc[3], now.sc[4], now.sc[5], now.sc[6]);
+        fprintf(OUT, "S %ld %ld %ld %ld %ld %ld %ld\n", now.sc[0], now.sc[1], now.sc[2], now.sc[3], now.sc[4], now.sc[5], now.sc[6]);
     if (!p->valid[0] || memcmp(now.af, p->af, sizeof now.af)) {
-        printf("A ");
-        for (int i = 0; i < RDSPARSER_AF_BUFFER_SIZE; i++) printf("%02x", now.af[i]);
-        printf("\n");
+        fprintf(OUT, "A ");
+        for (int i = 0; i < RDSPARSER_AF_BUFFER_SIZE; i++) fprintf(OUT, "%02x", now.af[i]);
+        fprintf(OUT, "\n");
     }
     for (int t = 0; t < 4; t++) {
         if (!p->valid[0] || !text_eq(&now.tx[t], &p->tx[t])) {
-            printf("T %d %lx %d %d ", t, now.tx[t].term, now.tx[t].len, now.tx[t].av);
+            fprintf(OUT, "T %d %lx %d %d ", t, now.tx[t].term, now.tx[t].len, now.tx[t].av);
             print_cells(&now.tx[t]);
-            printf("\n");
+            fprintf(OUT, "\n");
         }
     }
     if (!p->valid[0] || memcmp(now.set, p->set, sizeof now.set)) {
-        printf("G");
-        for (int i = 0; i < 10; i++) printf(" %d", now.set[i]);
-        printf("\n");
+        fprintf(OUT, "G");
+        for (int i = 0; i < 10; i++) fprintf(OUT, " %d", now.set[i]);
+        fprintf(OUT, "\n");
     }
     now.valid[0] = 1;
     *p = now;
@@ -254,13 +265,13 @@ static int hexv(int c)
     return -1;
 }
 
-int main(int argc, char **argv)
+int run_ops_file(const char *path, FILE *out)
 {
-    if (argc < 2) { fprintf(stderr, "usage: harness <ops>\n"); return 2; }
-    FILE *f = fopen(argv[1], "r");
+    FILE *f = fopen(path, "r");
     if (!f) { perror("ops"); return 2; }
-    static char out_buf[1 << 20];
-    setvbuf(stdout, out_buf, _IOFBF, sizeof out_buf);
+    OUT = out;
+    cur = 0; nev = 0; ev_overflow = 0; cur_handle = NULL;
+    memset(inst, 0, sizeof inst);
     char *line = NULL; size_t cap = 0; ssize_t n;
     long k = -1;
     while ((n = getline(&line, &cap, f)) >= 0) {
@@ -273,7 +284,7 @@ int main(int argc, char **argv)
         if (line[0] == '@') {
             cur = atoi(line + 1) % NINST; if (cur < 0) cur = 0;
             in = &inst[cur]; cur_handle = in->rds;
-            printf("O %ld %d 1\n", k, cur);
+            fprintf(OUT, "O %ld %d 1\n", k, cur);
             continue;
         } else if (!strcmp(line, "new")) {
             release(in);
@@ -292,7 +303,7 @@ int main(int argc, char **argv)
             release(in);
         } else if (!strcmp(line, "mf")) {
             /* allocation failure at the single allocation site */
-#ifndef RDSPARSER_DISABLE_HEAP
+#if !defined(RDSPARSER_DISABLE_HEAP) && !defined(NO_MALLOC_FAULT)
             verif_malloc_fail_next = 1;
             rdsparser_t *r = rdsparser_new();
             verif_malloc_fail_next = 0;
@@ -304,7 +315,7 @@ int main(int argc, char **argv)
             rdsparser_free(NULL);
 #endif
         } else if (!in->rds) {
-            printf("O %ld %d 1\nX op on empty slot\n", k, cur);
+            fprintf(OUT, "O %ld %d 1\nX op on empty slot\n", k, cur);
             continue;
         } else if (!strcmp(line, "clear")) {
             rdsparser_clear(in->rds);
@@ -344,7 +355,7 @@ int main(int argc, char **argv)
             snap_t tmp; snap_all(in->rds, &tmp); snap_all(in->rds, &tmp);
             /* out-of-range RT flag arguments select buffer B (documented `!!flag`) */
             if (rdsparser_get_rt(in->rds, 2) != rdsparser_get_rt(in->rds, 1) ||
-                rdsparser_get_rt(in->rds, 255) != rdsparser_get_rt(in->rds, 1)) printf("X get_rt flag\n");
+                rdsparser_get_rt(in->rds, 255) != rdsparser_get_rt(in->rds, 1)) fprintf(OUT, "X get_rt flag\n");
         } else {
             fprintf(stderr, "bad op: %s\n", line); return 2;
         }
@@ -353,6 +364,28 @@ int main(int argc, char **argv)
     for (int i = 0; i < NINST; i++) release(&inst[i]);
     free(line);
     fclose(f);
-    printf("END %ld mf=%ld\n", k + 1, verif_malloc_fail_count);
+    fprintf(OUT, "END %ld mf=%ld\n", k + 1, verif_malloc_fail_count);
+    fflush(OUT);
     return 0;
 }
+
+#ifdef SEGCHECK
+#include "segcheck.h"
+#endif
+
+#ifndef HARNESS_NO_MAIN
+int main(int argc, char **argv)
+{
+    if (argc < 2) { fprintf(stderr, "usage: harness <ops>\n"); return 2; }
+    static char out_buf[1 << 20];
+    setvbuf(stdout, out_buf, _IOFBF, sizeof out_buf);
+#ifdef SEGCHECK
+    seg_snapshot();
+#endif
+    int rc = run_ops_file(argv[1], stdout);
+#ifdef SEGCHECK
+    seg_compare(stdout);
+#endif
+    return rc;
+}
+#endif
